@@ -8,25 +8,74 @@ import numpy as np
 from harness.common import Failure, clist, cz
 from harness.tracks_gen import (respell, LABEL_IDS, NODE_IDS, all_dags, classes, components, cpairs, is_dag, mk_case, named_ids,
                                 set_partitions)
+from harness.tracks_gen import all_digraphs, has_directed_cycle, linking_components, parsed_msgs, planted_cyclic
 
 PROP = "C13"
 RULE = ("exhaustive: every DAG on <=4 labelled nodes x every labelling up to renaming (8278 cases, both tiers); sampled 5-node DAGs; "
         "random DAGs/forests up to 12 nodes with divisions, merges, parallel duplicate edges; labellings = reference partition "
         "perturbed by merge/split/move; through validate_tracklets and through validate_data(tracklet=True); "
-        "non-trivial = at least one edge; distinct by structural input")
-EXHAUSTIVE_BLOCKS = ["all DAGs on <=4 nodes x all labellings up to renaming"]
-ASSUMPTIONS = ["networkx DiGraph / subgraph / degree / is_weakly_connected are modelled by their mathematical meaning",
-               "acyclic inputs only (the property quantifies over acyclic graphs); node ids unique; edges between listed nodes"]
+        "non-trivial = at least one edge; distinct by structural input; "
+        "GRAPHS WITH CYCLES: exhaustive: every digraph (self loops, 2-cycles included) on <=3 nodes x every labelling up to renaming "
+        "(2595 cases, both tiers); 4-node digraphs with self loops sampled (thorough: in addition every loop-free 4-node digraph x every "
+        "labelling, 61440 cases); random graphs up to 12 nodes with planted self loops / 2-cycles / 3-cycles / closed tracklets / isolated "
+        "rings / back edges through divisions, labellings = linking components perturbed; verdict, named ids AND the kind of every message "
+        "(with the node it names) compared with the model in Coq")
+EXHAUSTIVE_BLOCKS = ["all DAGs on <=4 nodes x all labellings up to renaming",
+                     "all digraphs (self loops and 2-cycles included) on <=3 nodes x all labellings up to renaming",
+                     "thorough tier: all loop-free digraphs on 4 nodes x all labellings up to renaming"]
+ASSUMPTIONS = ["networkx DiGraph / subgraph / degree / is_weakly_connected are modelled by their mathematical meaning; "
+               "is_directed_acyclic_graph (topological_generations, Kahn by generations) is modelled as a peeling of the node set, its "
+               "per-node counters by their meaning",
+               "node ids unique; edges between listed nodes"]
 
 
 def reference_partition(nodes, edges):
     """The documented tracklets: maximal unbranched paths = components of the 'linking' edges
-    (only edge leaving its source and only edge entering its target)."""
+    (only edge leaving its source and only edge entering its target).
+
+    Graphs with cycles (decided from docs/tracking.md, not from the validator): a tracklet is "a simple path of connected
+    nodes" with an initiating and a terminating node, and it must be maximal.  A component of linking edges is forced into one
+    class by maximality; it is a tracklet only if it IS a simple path, i.e. the subgraph it induces (all edges of the graph among
+    its nodes, linking or not) has no directed cycle.  A component that induces a cycle -- an isolated ring a->b->c->a, a 2-cycle,
+    a node with a self loop, or a linking chain x1->..->xk whose end feeds back into x1 through a division -- has no initiating
+    node / is not a path, so it is NOT a tracklet, and no class containing one of its nodes can be valid (a sub-chain is not
+    maximal, the whole component is not a path).  A cycle all of whose nodes lie in different linking components (every edge of it
+    leaves a division or enters a merge) does not make any tracklet invalid."""
     es = {tuple(e) for e in edges}
     outd = {n: len({b for a, b in es if a == n}) for n in nodes}
     ind = {n: len({a for a, b in es if b == n}) for n in nodes}
     linking = [(a, b) for a, b in es if outd[a] == 1 and ind[b] == 1]
-    return {c for c in components(nodes, linking)}
+    return {c for c in components(nodes, linking) if not has_directed_cycle(c, es)}
+
+
+def is_maximal_unbranched_path(T, nodes, edges):
+    """Second, independent reading of the same definition, class by class: the subgraph induced by T is exactly a simple directed
+    path x1->x2->...->xk through all of T (k-1 edges, no other edge among T, so no cycle, no self loop), every edge of it is the only
+    edge leaving its source and the only edge entering its target in the whole graph, and no such edge of the graph has exactly one
+    end in T (maximal)."""
+    T = set(T)
+    es = {tuple(e) for e in edges}
+    outd = {n: len({b for a, b in es if a == n}) for n in nodes}
+    ind = {n: len({a for a, b in es if b == n}) for n in nodes}
+    inner = [(a, b) for a, b in es if a in T and b in T]
+    if len(inner) != len(T) - 1:
+        return False
+    starts = [x for x in T if not any(b == x for _, b in inner)]
+    if len(starts) != 1:
+        return False
+    seen = [starts[0]]
+    while True:
+        nxt = [b for a, b in inner if a == seen[-1]]
+        if not nxt:
+            break
+        if len(nxt) > 1 or nxt[0] in seen:
+            return False
+        seen.append(nxt[0])
+    if set(seen) != T:
+        return False
+    if any(outd[a] != 1 or ind[b] != 1 for a, b in inner):
+        return False
+    return not any(outd[a] == 1 and ind[b] == 1 and ((a in T) != (b in T)) for a, b in es)
 
 
 def perturb(rng, nodes, part):
@@ -94,6 +143,40 @@ def _generate(rng: random.Random, tier: str):
         labels = perturb(rng, nodes, sorted(part, key=lambda c: min(c)))
         via = "data" if rng.random() < 0.25 else "direct"
         yield {"kind": "tracklets", "nodes": nodes, "edges": es, "labels": [LABEL_IDS[l % len(LABEL_IDS)] for l in labels], "via": via}
+    yield from _generate_cyclic(rng, tier)
+
+
+def _generate_cyclic(rng: random.Random, tier: str):
+    """Graphs with cycles (kind tracklets_all: compared with TracksCyc.validate_tracklets, messages included)."""
+    # exhaustive: every digraph on <=3 nodes, self loops and 2-cycles included, x every labelling up to renaming
+    for n in range(4):
+        for edges in all_digraphs(n, loops=True):
+            for labels in set_partitions(n):
+                yield mk_case("tracklets_all", n, edges, labels)
+    # 4 nodes: thorough = every loop-free digraph x every labelling; both tiers: sample of the digraphs with self loops
+    if tier != "quick":
+        for edges in all_digraphs(4):
+            if is_dag(4, edges):
+                continue                      # already in the DAG block
+            for labels in set_partitions(4):
+                yield mk_case("tracklets_all", 4, edges, labels)
+    pairs = [(a, b) for a in range(4) for b in range(4)]
+    parts4 = list(set_partitions(4))
+    for _ in range(1500 if tier == "quick" else 12000):
+        dens = rng.choice([0.15, 0.25, 0.35, 0.5])
+        edges = [p for p in pairs if rng.random() < (dens if p[0] != p[1] else dens / 2)]
+        yield mk_case("tracklets_all", 4, edges, rng.choice(parts4))
+    # planted cycles in larger graphs
+    for _ in range(1500 if tier == "quick" else 12000):
+        n = rng.choice([4, 5, 5, 6, 8, 10, 12])
+        edges, what = planted_cyclic(rng, n)
+        nodes = NODE_IDS[:n]
+        es = [[nodes[a], nodes[b]] for a, b in edges]
+        part = linking_components(nodes, es)          # cyclic components included: "the ring carries one label" is the base case
+        labels = perturb(rng, nodes, sorted(part, key=lambda c: min(c)))
+        via = "data" if rng.random() < 0.2 else "direct"
+        yield {"kind": "tracklets_all", "nodes": nodes, "edges": es, "labels": [LABEL_IDS[l % len(LABEL_IDS)] for l in labels],
+               "via": via, "planted": what}
 
 
 def run_impl(c):
@@ -106,7 +189,7 @@ def run_impl(c):
         valid, errors = validate_tracklets(nodes, edges, labels)
     except Exception as e:
         return {"exc": type(e).__name__}
-    out = {"valid": bool(valid), "named": named_ids(errors, "Tracklet")}
+    out = {"valid": bool(valid), "named": named_ids(errors, "Tracklet"), "msgs": parsed_msgs(errors)}
     if c.get("via") == "data":
         from geff.validate.data import ValidationConfig, validate_data
         from geff_spec import GeffMetadata
@@ -146,10 +229,19 @@ def run_impl(c):
 
 
 def coq_case(c, o):
-    if "exc" in o or None in o["named"]:
+    if "exc" in o:
+        # the model never raises (C13_never_raises): an exception of the implementation is a correspondence mismatch
+        return f"(ITrackletsAll {cpairs(c['edges'])} {cpairs(list(zip(c['nodes'], c['labels'])))}, ORaises)"
+    if None in o["named"]:
         return None
     nl = cpairs(list(zip(c["nodes"], c["labels"])))
-    return f"(ITracklets {cpairs(c['edges'])} {nl}, OInvalid {clist(o['named'], cz)})"
+    if any(m[1] is None for m in o["msgs"]):
+        # a message the model does not know: the observation cannot be the model's
+        return f"(ITrackletsAll {cpairs(c['edges'])} {nl}, OInvalid {clist(o['named'], cz)})"
+    msgs = clist(o["msgs"], lambda m: f"({cz(m[0])}, {m[1]}{'' if m[2] is None else ' ' + cz(m[2])})")
+    # acyclic generators: both models (with and without the cycle test); graphs with cycles: the model with the cycle test
+    ctor = "ITrackletsDag" if c["kind"] == "tracklets" else "ITrackletsAll"
+    return f"({ctor} {cpairs(c['edges'])} {nl}, OMsgs {'true' if o['valid'] else 'false'} {msgs})"
 
 
 def oracle(c, o):
@@ -158,6 +250,11 @@ def oracle(c, o):
     ref = reference_partition(c["nodes"], c["edges"])
     cl = classes(c["nodes"], c["labels"])
     bad = [t for t, ns in cl.items() if frozenset(ns) not in ref]
+    bad2 = [t for t, ns in cl.items() if not is_maximal_unbranched_path(ns, c["nodes"], c["edges"])]
+    if bad != bad2:
+        raise AssertionError(f"harness: the two readings of the documented definition disagree on {c}: {bad} vs {bad2}")
+    if c["kind"] == "tracklets" and has_directed_cycle(c["nodes"], [tuple(e) for e in c["edges"]]):
+        raise AssertionError(f"harness: the acyclic generator produced a cycle: {c}")
     if o["valid"] != (not bad):
         kind = "accepts-invalid" if o["valid"] else "rejects-valid"
         return Failure(c, o, f"{kind}: classes that are not maximal unbranched paths: {bad}", {"why": kind})
@@ -183,8 +280,40 @@ def nontrivial(c, o):
     return bool(c["edges"])
 
 
+_STATS: dict = {}
+
+
+def _count(key):
+    _STATS[key] = _STATS.get(key, 0) + 1
+
+
+def extra_coverage():
+    """counts of the second half (graphs with cycles): inputs with a directed cycle, message kinds, planted structures"""
+    return {"cyclic_block": dict(sorted(_STATS.items()))}
+
+
 def describe(c, o):
-    return f"n={len(c['nodes'])}:e={len(c['edges'])}:classes={len(set(c['labels']))}:{'valid' if o.get('valid') else 'invalid'}"
+    if c["kind"] == "tracklets_all":
+        cyc = has_directed_cycle(c["nodes"], [tuple(e) for e in c["edges"]])
+        _count("inputs_with_directed_cycle" if cyc else "inputs_acyclic")
+        if cyc:
+            _count("cyclic_accepted" if o.get("valid") else "cyclic_rejected")
+            if any(a == b for a, b in c["edges"]):
+                _count("inputs_with_self_loop")
+            if any([b, a] in c["edges"] for a, b in c["edges"] if a != b):
+                _count("inputs_with_2cycle")
+        for m in o.get("msgs", []):
+            _count(f"message_{m[1]}")
+        for k in c.get("planted", []):
+            _count(f"planted_{k}")
+        if c.get("via") == "data":
+            _count("through_validate_data_and_read_to_memory")
+    base = f"n={len(c['nodes'])}:e={len(c['edges'])}:classes={len(set(c['labels']))}:{'valid' if o.get('valid') else 'invalid'}"
+    if c["kind"] == "tracklets_all":
+        cyc = has_directed_cycle(c["nodes"], [tuple(e) for e in c["edges"]])
+        kinds = sorted({m[1] or "?" for m in o.get("msgs", [])})
+        return f"all:{'cyclic' if cyc else 'dag'}:" + base + ":" + "+".join(kinds)
+    return base
 
 
 def search(rng, budget):
